@@ -135,5 +135,5 @@ SUBS = [
              "ModuleOutput + prev_hedge x Linear/MLP/Naked/BlackScholes/WhalleyWilmott/recurrent user model, 3..9 steps, "
              "1..5 paths, drawn torch seeds). Non-trivial: some perturbation changed a hedge column AFTER the cut "
              "(the model really reads the perturbed data).",
-        strategy=lambda tier: c02_case(), examples={"quick": 1500, "thorough": 15000}),
+        strategy=lambda tier: c02_case(), examples={"quick": 3200, "thorough": 32000}),
 ]
